@@ -114,6 +114,15 @@ REPRS = ["float", "np32", "np64", "jax0d", "jax_mean"]
 
 # --------------------------------------------------------------------------- plan generation
 def _letters(rng, n: int, with_special: bool) -> list:
+    if rng.random() < 0.08:
+        # a slow strict descent: 1 - j*2^-20 (exact in float32 and float64, relative steps of 1e-6): every epoch improves
+        start = rng.randint(0, 200)
+        steps = [rng.choice([1, 1, 2, 0]) for _ in range(n)]
+        out, cur = [], start
+        for st in steps:
+            cur += st
+            out.append(f"m{cur}")
+        return out
     k = rng.choice([2, 3, 4, 6])
     alphabet = sorted(rng.sample(range(0, 257, 8), k))  # dyadic values n/64 in [0,4]
     mode = rng.choice(["uniform", "descend_then_flat", "descend_then_rise", "noisy_descend"])
@@ -230,7 +239,7 @@ def gen_plan(rng, profile: dict, seed: int) -> dict:
         train = _letters(rng, n, special)
         has_val = cond["kind"] == "ValLoss" or rng.random() < 0.4
         val = _letters(rng, n, special) if has_val else None
-        Lval = B * rng.choice([1, 2]) if has_val else 0
+        Lval = (B * rng.choice([1, 2]) + (rng.randint(0, B - 1) if rng.random() < 0.5 else 0)) if has_val else 0
         return {
             "mode": mode,
             "cond": cond,
